@@ -69,6 +69,52 @@ type connExpr struct {
 
 // connArgShape normalises the *grpc.ClientConn argument expression.
 func connArgShape(p *core.Prog, v ssa.Value, recv ssa.Value) string {
+	return connArgShapeIn(p, v, recv, nil, 0)
+}
+
+// connArgShapeIn: bind maps the parameters of the helper in which v lives to
+// the arguments of its call (nil in the entry point itself).
+func connArgShapeIn(p *core.Prog, v ssa.Value, recv ssa.Value, bind map[ssa.Value]ssa.Value, depth int) string {
+	// computed by a helper of the package: the shape of what the helper returns, its parameter standing for the argument
+	if call, _, isCall := core.CallResult(v); isCall && depth < 2 && bind == nil {
+		if h := call.Call.StaticCallee(); h != nil && h.Blocks != nil && h.Pkg != nil && strings.HasPrefix(h.Pkg.Pkg.Path(), core.ModulePath) && !isFullUnwrap(h) {
+			b := map[ssa.Value]ssa.Value{}
+			for i, pp := range h.Params {
+				if i < len(call.Call.Args) {
+					b[pp] = call.Call.Args[i]
+				}
+			}
+			shape := ""
+			for _, r := range core.Returns(h) {
+				if len(r.Results) != 1 {
+					return "other:" + v.String()
+				}
+				s := connArgShapeIn(p, r.Results[0], recv, b, depth+1)
+				if shape != "" && s != shape {
+					return "other:" + v.String()
+				}
+				shape = s
+			}
+			if shape != "" {
+				return shape
+			}
+		}
+	}
+	operand := func(x ssa.Value, in *ssa.Function) (string, bool) {
+		if a, ok := bind[x]; ok {
+			x = a
+			in = nil
+		}
+		if base, f, isF := core.FieldOf(x); isF {
+			if in != nil && isRecv(base, in) {
+				return "recv." + f, true
+			}
+			if in == nil && (base == recv || core.SameVal(base, recv) || sameOrigins(base, recv)) {
+				return "recv." + f, true
+			}
+		}
+		return "", false
+	}
 	ex, ok := v.(*ssa.Extract)
 	if !ok || ex.Index != 0 {
 		if c, isC := v.(*ssa.Const); isC && c.Value == nil {
@@ -88,15 +134,15 @@ func connArgShape(p *core.Prog, v ssa.Value, recv ssa.Value) string {
 			s += "unwrapAll("
 			x = call.Call.Args[0]
 			defer func() {}()
-			if base, f, isF := core.FieldOf(x); isF && isRecv(base, call.Parent()) {
-				return s + "recv." + f + "))"
+			if d, ok := operand(x, call.Parent()); ok {
+				return s + d + "))"
 			}
 			return s + "other))"
 		}
 		return s + "call:" + ci.Full() + ")"
 	}
-	if base, f, isF := core.FieldOf(x); isF && isRecv(base, ta.Parent()) {
-		return s + "recv." + f + ")"
+	if d, ok := operand(x, ta.Parent()); ok {
+		return s + d + ")"
 	}
 	return s + "other)"
 }
